@@ -7,6 +7,7 @@ import (
 	"encoding/hex"
 	"errors"
 	"fmt"
+	standardwalletmanager "github.com/attestantio/dirk/services/walletmanager/standard"
 	"os"
 	"sort"
 	"strconv"
@@ -324,11 +325,31 @@ func (w *world) execCtx(ctx context.Context, f []string) string {
 		if err != nil || len(pub) == 0 {
 			return "err"
 		}
+		dynMu.Lock()
+		dynKeys[unhexStr(f[2])] = pub
+		dynMu.Unlock()
 		return "ok"
 	case "syncwrites":
 		return fmt.Sprintf("%v", w.rules.VerifSyncWrites())
 	case "export":
 		return w.export()
+	case "lockwallet", "unlockwallet":
+		// lockwallet <client> <wallet>: through the wallet manager service (built on this instance's services)
+		if w.walletMgr == nil {
+			wm, err := standardwalletmanager.New(w.ctx, standardwalletmanager.WithUnlocker(w.unlocker), standardwalletmanager.WithChecker(w.checker),
+				standardwalletmanager.WithFetcher(w.fetcher), standardwalletmanager.WithRuler(w.ruler))
+			if err != nil {
+				return "err:" + err.Error()
+			}
+			w.walletMgr = wm
+		}
+		var r core.Result
+		if f[0] == "lockwallet" {
+			r, _ = w.walletMgr.Lock(ctx, creds(unhexStr(f[1]), ""), unhexStr(f[2]))
+		} else {
+			r, _ = w.walletMgr.Unlock(ctx, creds(unhexStr(f[1]), ""), unhexStr(f[2]), []byte("pass"))
+		}
+		return coreStr(r)
 	case "importsvc":
 		// importsvc <key> <slot> <source> <target>: rules.Service.ImportSlashingProtection on the LIVE service (-1 = absent)
 		var k [48]byte
@@ -448,5 +469,19 @@ func runEngine(workdir string) {
 	}
 	if w != nil && w.rules != nil {
 		w.closeRules()
+	}
+}
+
+// public keys of the accounts created through dirk in this process ("d:" addresses)
+var (
+	dynMu   sync.Mutex
+	dynKeys = map[string][]byte{}
+)
+
+func init() {
+	dynResolver = func(path string) []byte {
+		dynMu.Lock()
+		defer dynMu.Unlock()
+		return dynKeys[path]
 	}
 }
